@@ -217,11 +217,18 @@ def array_bytes_checked(prog, b, eff, nbytes, nelem):
     has_try = [x for x in subterms(deep_strip(nbytes)) if is_call(x, "try_from")]
     n_ok = bool(has_try) and deep_strip(has_try[0][2][0]) == deep_strip(nelem)
     mul_ok = False
-    for cb in prog.closures_of(b):
+    # combinator form: the multiplication sits in the closure of `.and_then(|n| n.checked_mul(size_of::<T>() as isize))`;
+    # match / `?` form: it is a subterm of the byte count itself, applied to the Ok payload of the same try_from
+    for cb in prog.family(b)[1:]:
         for c in cb.calls():
             if canon(c.target or "").endswith("num::checked_mul"):
                 a = [deep_strip(x) for x in c.args()]
-                mul_ok = any(is_sizeof(x) for x in a) and any(x[0] == 'param' for x in a)
+                mul_ok = mul_ok or (any(is_sizeof(x) for x in a) and any(x[0] == 'param' for x in a))
+    for x in subterms(deep_strip(nbytes)):
+        if is_call(x, "checked_mul") and len(x[2]) == 2:
+            a = [deep_strip(y) for y in x[2]]
+            from_try = any(y[0] == 'ok' and has_try and checks.producer(y) == has_try[0] for y in a)
+            mul_ok = mul_ok or (any(is_sizeof(y) for y in a) and from_try)
     isz = bool(has_try) and any("isize" in str(x) for x in (has_try[0][3] if len(has_try[0]) > 3 else ())) or bool(has_try) and "isize" in has_try[0][1]
     return (n_ok and mul_ok and isz), f"byte count = isize::try_from(n) [{n_ok and isz}] .checked_mul(size_of::<T>()) [{mul_ok}] of the same n that becomes nelem"
 
